@@ -22,7 +22,6 @@ import (
 	pt "gitlab.torproject.org/tpo/anti-censorship/pluggable-transports/goptlib"
 
 	"gitlab.com/yawning/obfs4.git/transports"
-	"gitlab.com/yawning/obfs4.git/transports/scramblesuit"
 )
 
 func init() {
@@ -83,7 +82,7 @@ func main() {
 			return
 		}
 		raw, _ := hex.DecodeString(os.Args[4])
-		if err := scramblesuit.VerifStoreTicket(dir, addr, raw); err != nil {
+		if err := ssStoreTicket(dir, addr, raw); err != nil {
 			emit(out{Err: err.Error()})
 			return
 		}
@@ -94,7 +93,7 @@ func main() {
 			emit(out{Err: err.Error()})
 			return
 		}
-		found, err := scramblesuit.VerifGetTicket(dir, addr)
+		found, err := ssGetTicket(dir, addr)
 		if err != nil {
 			emit(out{Err: err.Error()})
 			return
